@@ -110,10 +110,9 @@ theorem derived_valid (c : Color α) (hc : Valid c) (t : CbType) :
   refine ⟨?_, ?_, ?_⟩
   · cases t <;> exact fromLms_valid _ _ _ _
   · unfold textColor; split <;> exact fromHsla_valid _ _ _ _
-  · have h := fromHsla_valid (hueValue (fromLch (toLch c).x 0.0 0.0 1.0 : Color α).hue)
-      ((fromLch (toLch c).x 0.0 0.0 1.0 : Color α).sat + -1.0)
-      (fromLch (toLch c).x 0.0 0.0 1.0 : Color α).light (fromLch (toLch c).x 0.0 0.0 1.0 : Color α).alpha
-    exact ⟨hc.hue_finite, h.sat_range, h.light_range, h.alpha_range⟩
+  · have hg : Valid (desaturate (fromLch (toLch c).x 0.0 0.0 c.alpha) 1.0) :=
+      (adjust_valid (fromLch (toLch c).x 0.0 0.0 c.alpha) (1.0 : α)).2.2.2.1
+    exact ⟨hc.hue_finite, hg.sat_range, hg.light_range, hg.alpha_range⟩
 
 end libm
 
